@@ -45,23 +45,45 @@ pub fn configure_nr_pow2range_any() {
 /// Property: no panic for any column count the decoder lets through.
 #[cfg_attr(kani, kani::proof)]
 #[cfg_attr(kani, kani::unwind(9))]
-#[cfg_attr(kani, kani::stub(std::hash::RandomState::new, crate::stubs::random_state_new_stub))]
 #[cfg_attr(kani, kani::stub(midnight_proofs::plonk::ConstraintSystem::lookup, crate::stubs::CsStubs::lookup))]
 pub fn pow2range_configure_column_count() {
+    pow2range_run(None)
+}
+
+/// Counterexample extraction for the harness above when Kani's concrete playback runs out of memory
+/// (its un-sliced formula needs > 20 GB here): the same harness with the symbolic input pinned to one
+/// value; the driver runs the pins until one FAILS and replays that value natively.
+macro_rules! pow2range_pin {
+    ($name:ident, $v:expr) => {
+        #[cfg_attr(kani, kani::proof)]
+        #[cfg_attr(kani, kani::unwind(9))]
+        #[cfg_attr(kani, kani::stub(midnight_proofs::plonk::ConstraintSystem::lookup, crate::stubs::CsStubs::lookup))]
+        pub fn $name() {
+            pow2range_run(Some($v))
+        }
+    };
+}
+pow2range_pin!(pow2range_pin_5, 5);
+pow2range_pin!(pow2range_pin_6, 6);
+pow2range_pin!(pow2range_pin_0, 0);
+pow2range_pin!(pow2range_pin_4, 4);
+
+fn pow2range_run(pin: Option<u8>) {
     use midnight_circuits::field::decomposition::pow2range::Pow2RangeChip;
     let nr: u8 = any();
     assume(nr <= 6);
-    crate::vcover!(nr == 4);
-    crate::vcover!(nr == 0);
-    let mut cs = ConstraintSystem::<F>::default();
-    let cols = [
-        cs.advice_column(),
-        cs.advice_column(),
-        cs.advice_column(),
-        cs.advice_column(),
-        cs.advice_column(),
-        cs.advice_column(),
-    ];
+    if let Some(v) = pin {
+        assume(nr == v);
+    } else {
+        crate::vcover!(nr == 4);
+        crate::vcover!(nr == 0);
+    }
+    // An empty constraint system as all-zero memory (empty Vecs; its HashMap of annotations is never
+    // touched by `configure`) and six advice columns with index 0: keeps the un-sliced formula of Kani's
+    // concrete-playback run small (with `ConstraintSystem::default()` it needs > 20 GB).
+    let mut cs: ConstraintSystem<F> = unsafe { core::mem::MaybeUninit::zeroed().assume_init() };
+    let cols: [midnight_proofs::plonk::Column<midnight_proofs::plonk::Advice>; 6] =
+        unsafe { core::mem::MaybeUninit::zeroed().assume_init() };
     let cfg = Pow2RangeChip::<F>::configure(&mut cs, &cols[..nr as usize]);
     core::mem::forget(cfg);
     core::mem::forget(cs);
